@@ -231,7 +231,13 @@ def run(ctx):
         inl = q.Inliner(fx)
         for fld, at0 in (("first", "mux == 0"), ("last", None)):
             f = inl.formula_of_path(f"self.source.{fld}")
-            ctx.need(f is not None, f"{cls}.source.{fld} not comb-driven")
+            if f is None:
+                # the marker is no longer one signal gated by the emission counter (e.g. driven per Case arm from the chunk position)
+                ds_ = fx.find(domain="comb", target=f"self.source.{fld}")
+                ctx.ob("S5", STREAM, cls, f"source.{fld} = sink.{fld} & {fld}-chunk", False,
+                       f"source.{fld} is driven by {[(a.v, a.gtext()) for a in ds_][:3]}: not `sink.{fld}` qualified by the position of the emitted chunk "
+                       f"(mux): with reversed chunk order the marker lands on the wrong token", ds_[0].line if ds_ else 0)
+                continue
             ats = [a for a in B.atoms(f) if a.startswith("mux == ")]
             ok = len(ats) == 1 and B.entails(f, B.A(ats[0])) and B.entails(f, B.A(f"self.sink.{fld}")) and \
                 (at0 is None or ats[0] == at0)
